@@ -327,6 +327,40 @@ pub fn run(args: &Args) -> i32 {
                 }
             }
         }
+        // several trailing transitions to the same type, months apart (the rule is evaluated at the LAST transition's instant,
+        // whatever earlier entries say): the rule's type changes between the first and the last of the run
+        {
+            let (est, edt) = (MType::new(-18000, false, Some("EST")), MType::new(-14400, true, Some("EDT")));
+            let july = s21 + 100 * 86400;
+            let december = e21 + 30 * 86400;
+            let march_before = s21 - 20 * 86400;
+            for (ta, tb) in [(july, december), (march_before, july), (july, july + 86400), (december, december + 40 * 86400)] {
+                for i in [1usize, 2] {
+                    for lead in 0..2 {
+                        let types = vec![MType::new(-17762, false, Some("LMT")), est, edt];
+                        let mut trans = vec![(ta, i), (tb, i)];
+                        if lead == 1 {
+                            trans.insert(0, (ta - 200 * 86400, 3 - i));
+                        }
+                        let r = Raw { trans, types, leaps: vec![], rule: Some(us.clone()) };
+                        check_raw(&cyc, &r, &rec, "rule_space_repeated_type", &mut t3, false);
+                    }
+                }
+            }
+        }
+        // a leap table with exactly one defect (first correction 0 / 2, repeated correction, spacing one second short) together
+        // with a DST rule whose transition lies within two seconds of the last transition: the leap table is what is wrong
+        for x in [s21, e21] {
+            for eps in -2i64..=2 {
+                for bad in [vec![(78_796_800i64, 2i32)], vec![(78_796_800, 0)], vec![(78_796_800, 1), (78_796_800 + M, 1)], vec![(78_796_800, 1), (78_796_800 + M - 1, 2)], vec![(78_796_800, -1), (78_796_800 + M, -3)]] {
+                    for last_type in [MType::new(-18000, false, Some("EST")), MType::new(-14400, true, Some("EDT"))] {
+                        let types = vec![MType::new(-17762, false, Some("LMT")), last_type];
+                        let r = Raw { trans: vec![(0, 0), (x + eps, 1)], types, leaps: bad.clone(), rule: Some(us.clone()) };
+                        check_raw(&cyc, &r, &rec, "rule_space_bad_leap_table", &mut t3, false);
+                    }
+                }
+            }
+        }
         // leap record x last transition x rule transition aligned: the record's UTC instant sits at a rule transition + delta,
         // the last transition's count at the record's count + epsilon (the correction in effect AT a record's own count is the
         // previous one)
